@@ -3,6 +3,7 @@ package keeper
 import (
 	"context"
 	"encoding/hex"
+	"math/big"
 
 	"github.com/tellor-io/layer/x/bridge/types"
 	oracletypes "github.com/tellor-io/layer/x/oracle/types"
@@ -42,6 +43,11 @@ func c14WithdrawQueryId(id uint64) []byte {
 	return crypto.Keccak256(ref)
 }
 
+var (
+	c14Two64 = math.NewIntFromBigInt(new(big.Int).Lsh(big.NewInt(1), 64))
+	c14Two72 = math.NewIntFromBigInt(new(big.Int).Lsh(big.NewInt(1), 72))
+)
+
 // VerifC14_withdraw: one or two withdrawals by a sender from an arbitrary withdrawal counter.
 //   - a successful withdrawal burns exactly the requested amount from the sender (balance and supply both fall
 //     by it, the bridge account keeps nothing), gets the id previous+1 (1 when there was none) which is stored,
@@ -57,7 +63,9 @@ func VerifC14_withdraw() {
 	sender := sdk.AccAddress(senderBytes)
 	bal0 := ndBigInt("senderBalance")
 	ndAssume(!bal0.IsNegative())
-	ndAssume(bal0.LT(math.NewIntFromUint64(1 << 63)))
+	ndAssume(bal0.LT(c14Two72))
+	// amounts that do not fit the report value's 64-bit amount field abort the transaction (state rolled back)
+	ndAllowPanic("Uint64() out of bounds")
 	bank.set(vbAcc(sender), bal0)
 	hasCounter := ndBool("hasCounter")
 	id0 := ndUint64("counter")
@@ -72,11 +80,11 @@ func VerifC14_withdraw() {
 	spent := math.ZeroInt()
 	var firstQuery []byte
 	for w := 0; w < nw; w++ {
-		amt := ndUint64(nm("amount", w))
-		ndAssume(amt >= 1)
-		ndAssume(amt < 1<<62)
+		amtWide := ndBigInt(nm("amount", w))
+		ndAssume(amtWide.IsPositive())
+		ndAssume(amtWide.LT(c14Two72))
 		recipient := ndByteSlice(nm("recipient", w), 20)
-		coin := sdk.Coin{Denom: "loya", Amount: math.NewIntFromUint64(amt)}
+		coin := sdk.Coin{Denom: "loya", Amount: amtWide}
 		balBefore, burnedBefore, nAggs := bank.get(vbAcc(sender)), bank.burned, len(sink.aggs)
 		id, err := k.WithdrawTokens(ctx, coin, sender, recipient)
 		if err != nil {
@@ -89,6 +97,12 @@ func VerifC14_withdraw() {
 			continue
 		}
 		ndReach("withdrawn")
+		// the published value carries the amount in 64 bits: a larger withdrawal must not go through
+		ndAssert(amtWide.LT(c14Two64), "a-withdrawal-beyond-the-encodable-amount-does-not-succeed")
+		if !amtWide.LT(c14Two64) {
+			return
+		}
+		amt := amtWide.Uint64()
 		spent = spent.Add(coin.Amount)
 		ndAssert(bank.get(vbAcc(sender)).Equal(balBefore.Sub(coin.Amount)), "sender-loses-exactly-the-amount")
 		ndAssert(bank.burned.Equal(burnedBefore.Add(coin.Amount)) && bank.minted.IsZero(), "exactly-the-amount-is-burned")
@@ -118,4 +132,52 @@ func VerifC14_withdraw() {
 		prevID = id
 	}
 	ndAssert(bank.get(vbAcc(sender)).Equal(bal0.Sub(spent)), "sender-balance-is-initial-minus-withdrawn")
+}
+
+
+// c14BadRecipients: recipient strings that are not the hex text of bytes
+var c14BadRecipients = []string{"zz", "1234567g", "123", "0x1234", "12 34", "tellor1qqqq"}
+
+// VerifC14_withdraw_msg: the message handler: wrong denom, zero or negative amounts and recipients that are not hex
+// text are refused before anything is burned; a well-formed message burns the amount and publishes the aggregate for
+// exactly the decoded recipient.
+func VerifC14_withdraw_msg() {
+	bank := newVBank(false)
+	sink := &c14Sink{}
+	ctx, k := vBridgeKeeper(c14Bonded{total: math.NewInt(1000)}, sink, bank, nil)
+	senderBytes := ndByteSlice("sender", 20)
+	sender := sdk.AccAddress(senderBytes)
+	bal0 := math.NewIntFromUint64(1 << 62)
+	bank.set(vbAcc(sender), bal0)
+	amt := ndBigInt("amount")
+	ndAssume(amt.GT(math.NewInt(-1000)))
+	ndAssume(amt.LT(math.NewIntFromUint64(1 << 61)))
+	denom := []string{"loya", "stake"}[ndPick("denom", 2)]
+	recipientBytes := ndByteSlice("recipient", 20)
+	kind := ndPick("recipientKind", 1+len(c14BadRecipients))
+	recipient := hex.EncodeToString(recipientBytes)
+	if kind > 0 {
+		recipient = c14BadRecipients[kind-1]
+	}
+	_, err := NewMsgServerImpl(k).WithdrawTokens(ctx, &types.MsgWithdrawTokens{Creator: sender.String(), Recipient: recipient, Amount: sdk.Coin{Denom: denom, Amount: amt}})
+	if err != nil {
+		ndReach("refused")
+		ndAssert(bank.nCalls == 0 && len(sink.aggs) == 0, "refused-message-burns-and-publishes-nothing")
+		ndAssert(kind > 0 || denom != "loya" || !amt.IsPositive(), "a-well-formed-affordable-message-is-not-refused")
+		return
+	}
+	ndReach("withdrawn")
+	ndAssert(denom == "loya" && amt.IsPositive(), "only-positive-loya-amounts")
+	ndAssert(kind == 0, "only-hex-recipients")
+	ndAssert(bank.get(vbAcc(sender)).Equal(bal0.Sub(amt)) && bank.burned.Equal(amt), "exactly-the-amount-is-burned-from-the-sender")
+	if len(sink.aggs) == 1 && kind == 0 {
+		ref := vWordAddr(recipientBytes)
+		ref = append(ref, vWordU64(128)...)
+		ref = append(ref, vWordU64(amt.Uint64())...)
+		ref = append(ref, vWordU64(0)...)
+		ref = append(ref, vDyn([]byte(sender.String()))...)
+		ndAssert(sink.aggs[0].AggregateValue == hex.EncodeToString(ref), "value-encodes-the-decoded-recipient-the-sender-and-the-amount")
+	} else {
+		ndAssert(false, "exactly-one-aggregate-published")
+	}
 }
